@@ -9,7 +9,7 @@ hooks = subprocess.run(['git', '-C', '/repo', 'log', '--format=%H %s'], stdout=s
 hook_commits = [l.split()[0] for l in hooks if ' verif hook:' in ' ' + l.split(' ', 1)[1]]
 m = dict(
     version=1,
-    setup_cmd='python3 vcheck.py --setup',
+    setup_cmd='python3 /verif/vcheck.py --setup',
     hooks=dict(
         guard='CPPUTEST_VERIF_HOOKS',
         enable='vcheck.py compiles /repo/src/CppUTest/*.cpp, src/CppUTestExt/*.cpp and src/Platforms/Gcc/UtestPlatform.cpp from the current working tree with -DCPPUTEST_VERIF_HOOKS (plus the sanitizer flags of the build variant); nothing is taken from /repo/_build',
@@ -20,7 +20,7 @@ m = dict(
     engines=[dict(name='vcheck', path='vcheck.py', serves_properties=sorted(p for p in PROPS if p in set(os.path.basename(f)[:-3] for f in subprocess.run(['git', '-C', V, 'ls-files', 'props.d'], stdout=subprocess.PIPE, text=True).stdout.split())),
                   kind_free_text='runtime monitoring driver: builds the current /repo tree under ASan+UBSan / TSan (and uninstrumented for valgrind memcheck), runs seeded workload harnesses (harness/*.cpp) in parallel processes, attributes sanitizer aborts to the generated case, applies reference-model / offline oracles, matches violations against known_findings.json, writes evidence and replay files')],
     checks=[],
-    notes='All checks: `python3 vcheck.py <ID>`; VERIF_SEED / VERIF_TIER honoured; exit 2 = inconclusive (infrastructure, watchdog, monitors observed too little). See DESIGN.md.',
+    notes='All checks: `python3 /verif/vcheck.py <ID>`; VERIF_SEED / VERIF_TIER honoured; exit 2 = inconclusive (infrastructure, watchdog, monitors observed too little). See DESIGN.md.',
     not_applicable=[],
 )
 tracked = set(os.path.basename(f)[:-3] for f in subprocess.run(['git', '-C', V, 'ls-files', 'props.d'], stdout=subprocess.PIPE, text=True).stdout.split())
@@ -29,10 +29,10 @@ for pid in ALL:
         c = PROPS[pid]
         m['checks'].append(dict(
             property_id=pid,
-            quick_cmd='python3 vcheck.py %s --tier quick' % pid,
-            thorough_cmd='python3 vcheck.py %s --tier thorough' % pid,
+            quick_cmd='python3 /verif/vcheck.py %s --tier quick' % pid,
+            thorough_cmd='python3 /verif/vcheck.py %s --tier thorough' % pid,
             evidence_file='/verif/evidence/%s.json' % pid,
-            replay_cmd_template='python3 vcheck.py %s --replay {path}' % pid,
+            replay_cmd_template='python3 /verif/vcheck.py %s --replay {path}' % pid,
             engine='vcheck',
             level_claimed=dict(category=c['level'], text=c.get('level_text', 'Held on the executions produced: every generated case is executed on the real code built from the current tree under sanitizers and judged by an independent oracle; the evidence file states how many cases, which sections were enumerated completely and what the monitors observed. This is exploration, not proof.'), design_ref=c.get('design_ref', 'DESIGN.md section 7, ' + pid)),
             level_note=c.get('level_note', '; '.join(c.get('assumptions', [])) or 'trusts the oracle in harness/' + c['harness']),
